@@ -199,6 +199,8 @@ Definition record_end : M unit :=
 
 Definition origin_block_parser (len : Z) : M (list byte) :=
   if len <? 0 then fail EOther else
+  (* Go: the int64 size wraps negative for lengths near the largest int; over Z it never is *)
+  if go_toOriginLength len <? 0 then fail EOther else
   r <-- try (request_z (go_toOriginLength len)) ;;;
   match r with
   | (None, _) => fail EOther
